@@ -36,9 +36,13 @@ type c03Case struct {
 	Prev []world.PrevSession `json:"prev,omitempty"`
 }
 
-func c03Prop(t *testing.T, r *hx.Run) func(c c03Case) hx.Verdict {
+func c03Prop(t *testing.T, r *hx.Run, subs ...string) func(c c03Case) hx.Verdict {
+	subName := "update_delivery"
+	if len(subs) > 0 {
+		subName = subs[0]
+	}
 	return func(c c03Case) hx.Verdict {
-		r.SetCurrent("update_delivery", c)
+		r.SetCurrent(subName, c)
 		nUpd := 0
 		for _, m := range c.Msgs {
 			if m >= 0 {
@@ -97,6 +101,9 @@ func c03Prop(t *testing.T, r *hx.Run) func(c c03Case) hx.Verdict {
 		p.Plugin.HandlerNotifOn = c.HandlerNotifOn
 		p.Plugin.HandlerNotif = c.HandlerNotif
 		p.Plugin.SleepNs = map[string]int64{"upd": c.SleepUpdNs, "est": c.SleepEstNs}
+		if c.End == "rst" {
+			p.Plugin.SpinUs = map[string]int64{"upd": 300}
+		}
 		if c.Echo {
 			p.Plugin.WriteInUpd = []hx.Hex{hx.Hex(taggedUpdate(0xE1000000, 23)), hx.Hex(taggedUpdate(0xE1000001, 0))}
 		}
@@ -150,6 +157,13 @@ func c03Prop(t *testing.T, r *hx.Run) func(c c03Case) hx.Verdict {
 			if c.End == "fin" {
 				conn.RemoteClose()
 			}
+			if c.End == "rst" {
+				// the connection is reset while the (busy-waiting) handler is at work: whatever
+				// is delivered after that is still a prefix of what was sent, and nothing
+				// follows a call that returned a Notification
+				memnet.Spin(120)
+				conn.RemoteReset()
+			}
 			if c.SleepUpdNs >= int64(time.Second) {
 				// a handler slower than the hold time: stop observing right after
 				// the last call returns (the scripted remote then stays silent, so
@@ -194,6 +208,13 @@ func c03Prop(t *testing.T, r *hx.Run) func(c c03Case) hx.Verdict {
 					inUpd = false
 				}
 			}
+			if c.End == "rst" && nEst == 0 {
+				// the reset overtook the handshake: nothing can have been delivered
+				if len(got) != 0 {
+					fail("delivered-before-established", "%d UPDATEs were delivered although the session was never Established", len(got))
+				}
+				return
+			}
 			if nEst != 1 {
 				fail("not-established", "OnEstablished fired %d times", nEst)
 				return
@@ -201,6 +222,22 @@ func c03Prop(t *testing.T, r *hx.Run) func(c c03Case) hx.Verdict {
 			want := sent
 			if c.HandlerNotifOn > 0 && c.HandlerNotifOn <= len(sent) {
 				want = sent[:c.HandlerNotifOn]
+			}
+			if c.End == "rst" {
+				if len(got) > len(want) {
+					fail("delivered-after-handler-notification", "%d UPDATEs reached the handler, the call for UPDATE %d had returned a Notification (the connection was reset meanwhile)", len(got), len(want))
+					return
+				}
+				for i := range got {
+					if !bytes.Equal(got[i], want[i]) {
+						fail("delivery-content", "UPDATE %d delivered as %d bytes %x, sent %d bytes %x", i, len(got[i]), clip(got[i]), len(want[i]), clip(want[i]))
+						return
+					}
+				}
+				if st := conn.Snapshot(); !st.LocalClosed || nClose != 1 {
+					fail("rst-session-not-ended", "after the remote's reset: closed=%v OnClose x%d", st.LocalClosed, nClose)
+				}
+				return
 			}
 			if len(got) != len(want) {
 				fail("delivery-count", "%d UPDATEs sent (%d expected at the handler), %d delivered", len(sent), len(want), len(got))
@@ -293,7 +330,7 @@ func genC03(rt *rapid.T) c03Case {
 		c.SleepEstNs = pick[int64](rt, "sleepestv", 1, 1000000)
 	}
 	if rapid.IntRange(0, 3).Draw(rt, "end") == 0 {
-		c.End = "fin"
+		c.End = pick(rt, "endkind", "fin", "fin", "rst")
 	}
 	if rapid.IntRange(0, 3).Draw(rt, "withprev") == 0 {
 		for i, n := 0, rapid.IntRange(1, 2).Draw(rt, "nprev"); i < n; i++ {
